@@ -8,7 +8,7 @@ their own jobs (ghost pool with front / back indices, method I); FIFO order is a
 import re
 
 from vf.cxx2c import Rewriter, attach_loop_contracts, expand_lock
-from vf.extract import find_body
+from vf.extract import ExtractionBreak, find_body
 from vf.runner import Job
 
 F_POOL = 'src/runtime/fair_thread_pool.cpp'
@@ -120,6 +120,8 @@ __CPROVER_assigns(self->_jobs_count, g.stopped, g_lock_held, g_notify_all, g.exi
 /* Stop: sets bit0, never removes jobs, releases the lock, wakes every worker */
 __CPROVER_ensures(self->_jobs_count == (OLD(self->_jobs_count) | 1) && g.stopped == 1 && g_lock_held == 0 && g_notify_all == OLD(g_notify_all) + 1)
 __CPROVER_ensures(g.exit_stopped == 1 && g.exit_queued == g.queued && g.exit_running == g.running);
+/* C08: SoftStop stops only when no job is queued or running - a worker turns `stopped` on only on request and when nothing is queued and nothing is running (on any worker) */
+#define SOFT_STOP_OK() __CPROVER_assert(g.stopped || (g.want && g.queued == 0 && g.running == 0), "C08: a worker stops the pool only on a SoftStop request and when no job is queued or running")
 #define WAIT_CV(cv, lk) do { \
   __CPROVER_assert(!g.stopped, "C08: a worker blocks only while the pool is not stopped (Stop's notify_all is the last wake-up it can rely on)"); \
   __CPROVER_assert(g.queued == 0, "C08: a worker never blocks while a job is queued (the notify_one of that Submit may already be gone)"); \
@@ -230,6 +232,10 @@ __CPROVER_ensures(g.drops == g_stolen && g.local_len == 0 && g.calls == 0 && g.p
     # Loop
     c = expand_lock('Loop', b_loop.text)
     c = rw('Loop', pre=[(r'_idle\.wait\(\s*lock\s*\)\s*;', 'WAIT_CV(&self->_idle, lock);', 1)], nomembers=[]).rewrite(c)
+    # discipline at the worker's own stop: (the final state - stopped, queue empty - is reached by a premature stop as well)
+    c, k = re.subn(r'\bStop_locked\(\s*self\s*\)', '(SOFT_STOP_OK(), Stop_locked(self))', c)
+    if k < 1:
+        raise ExtractionBreak('Loop: the worker no longer stops the pool through Stop(lock&&)')
     outer = ('__CPROVER_assigns(self->_jobs_count, g, g_lock_held, g_notify_all, lock_held)\n'
              '__CPROVER_loop_invariant(lock_held == 1 && g_lock_held == 1 && MON_INV(0) && !g.my_running && g.popped_done && g.drops == 0 && g_notify_all == 0)')
     inner = ('__CPROVER_assigns(self->_jobs_count, g, g_lock_held, lock_held)\n'
